@@ -106,10 +106,9 @@ class Memory(Backend):
             self._set(key, value, expire)
 
     async def scan(self, pattern: str, batch_size: int = 100) -> AsyncIterator[Key]:  # type: ignore
-        pattern = pattern.replace("*", ".*")
-        regexp = re.compile(pattern)
+        regexp = re.compile(re.escape(pattern).replace(r"\*", ".*"), flags=re.DOTALL)
         for key in dict(self.store):
-            if regexp.fullmatch(key):
+            if regexp.fullmatch(key) and await self._live_entry(key, touch=False) is not None:
                 yield key
 
     async def incr(self, key: Key, value: int = 1, expire: float | None = None) -> int:
